@@ -9,7 +9,7 @@ import (
 // C09 - require-order stops at the first non-option and hands the rest over verbatim.
 // Relation: Outcome(P ++ [s] ++ T, require-order) == Outcome(P, no require-order) with remaining = [s] ++ T.
 
-var c09Stops = []string{"positional", "unknown-long", "unknown-short", "dash", "hostile-plain", "empty", "mixed-bundle"}
+var c09Stops = []string{"positional", "unknown-long", "unknown-short", "dash", "hostile-plain", "empty", "mixed-bundle", "unknown+ambiguous-bundle"}
 
 func init() {
 	fw.Register(&fw.Check{
@@ -22,8 +22,8 @@ func init() {
 			r := CaseRng(seed, "C09", idx)
 			stopKind := c09Stops[idx%len(c09Stops)]
 			pc := DefaultCfg()
-			pc.Modes = []int{(idx / 7) % 3}
-			pc.Unknowns = []int{(idx / 21) % 3}
+			pc.Modes = []int{(idx / 8) % 3}
+			pc.Unknowns = []int{(idx / 24) % 3}
 			pc.CmdModes = true
 			pc.LonesomeDash = false
 			p := GenProg(r, pc)
@@ -90,6 +90,23 @@ func init() {
 				stop = g.r.Pick(HostilePlain)
 			case "empty":
 				stop = ""
+			case "unknown+ambiguous-bundle":
+				// Bundling: an unknown letter followed by a letter that is an ambiguous abbreviation: the token is the stop
+				// token (its first letter matches nothing), the ambiguity behind it is never looked at
+				stop = g.pay.Pos()
+				if p.Mode == 1 {
+					for _, k := range g.node.SortedKeys() {
+						l := FirstRune(k)
+						if _, _, amb := g.node.ResolveKey(l); len(amb) >= 2 {
+							for _, u := range []string{"x", "y", "z"} {
+								if g.unkOK(u) {
+									stop = "-" + u + l
+								}
+							}
+							break
+						}
+					}
+				}
 			case "mixed-bundle":
 				// Bundling: a one-letter option taking a detached value, then an unknown letter: `-ax val`.
 				// The statement does not say whether the known letters before the unknown one count; both readings
